@@ -140,12 +140,25 @@ def script_ops(stmts, costs):
     return ops
 
 
-def script_text(stmts):
+TIME_FORMS = ('literal', 'braced', 'variable', 'macro', 'call', 'braced-variable')
+
+
+def script_text(stmts, form='literal'):
+    """`form`: how every delay value of the script is written — as a literal, as a braced
+    expression, through a variable, a macro, a routine call, or a braced expression over a
+    variable (the value, and so the time line, is the same)"""
     out = []
+    k = 0
     for st in stmts:
         if st[0] == 'time':
             v = st[1]
-            out.append('time {}'.format(int(v) if float(v) == int(v) else repr(float(v))))
+            lit = '{}'.format(int(v) if float(v) == int(v) else repr(float(v)))
+            k += 1
+            out.append({'literal': 'time {v}', 'braced': 'time {{{v}}}',
+                        'variable': 'assign tv{k} {v} time tv{k}',
+                        'macro': 'define tm{k} {v} time tm{k}',
+                        'call': 'time [same_value {v}]',
+                        'braced-variable': 'assign tv{k} {v} time {{tv{k} * 1}}'}[form].format(v=lit, k=k))
         elif st[0] == 'at':
             out.append('time at ' + st[1].replace('|', ' or '))
         elif st[0] == 'units':
@@ -160,6 +173,8 @@ def script_text(stmts):
             out.append('set "Candle" begin ' + ' '.join(inner) + ' end')
     if any(st[0] == 'block' and any(i[0] == 'callstage' for i in st[1]) for st in stmts):
         out.insert(0, 'define stage_it begin stage column 1 end')
+    if form == 'call':
+        out.insert(0, 'define same_value with q begin return q end')
     return '\n'.join(out) + '\n'
 
 
@@ -633,7 +648,8 @@ def gen_script_case(rng, idx):
         tick = rng.choice([1.0, 2.0, 7.5])
     return {'mode': 'script', 'tick': tick, 't0': t0, 'stmts': stmts, 'costs': costs,
             'tick_from_file': hash_mod(idx, 3) == 1,
-            'text': script_text(stmts), 'id': idx, 'raw': any(s == ('units', 'raw') for s in stmts)}
+            'text': script_text(stmts, TIME_FORMS[hash_mod(idx, len(TIME_FORMS))]),
+            'time_form': TIME_FORMS[hash_mod(idx, len(TIME_FORMS))], 'id': idx, 'raw': any(s == ('units', 'raw') for s in stmts)}
 
 
 def has_pattern(stmts):
